@@ -29,6 +29,50 @@ TOL = Fraction(1, 100000)
 R9 = Fraction(1, 10**9)
 
 
+def asked_with_little_stack(ctx, env):
+    """a chain of the user's own units (each twice the next); the first comparison / sum across the chain is made from
+    deep inside the program's own recursion, with a few frames to spare, so the search may die of RecursionError at any
+    depth.  An answer that comes back must be right, and afterwards, with all the stack there is, a == b, b == a, a < b,
+    a + b and a - b must be what the declarations say (exact: powers of two)"""
+    m, rng = env.m, ctx.rng
+    Q = m.Quantity
+    for k in range(6 if ctx.tier == "quick" else 150):
+        dim = rng.choice([m.Length, m.Time, m.Mass])
+        links = rng.choice([3, 5, 8, 12, 20, 40])
+        units = []
+        for j in range(links + 1):
+            nm = f"zqc06deep{ctx.shard}x{k}x{j}"
+            units.append(m.Unit.define(dim, nm, nm))
+        for a, b in zip(units, units[1:]):
+            a.equals(2 * b)
+        i, j = sorted(rng.sample(range(links + 1), 2))
+        if j - i > 20:
+            j = i + 20
+        a, b = Q(1, units[i]), Q(2 ** (j - i), units[j])      # equal
+        small = Q(1, units[j])
+        for free in sorted(rng.sample([3, 5, 8, 12, 16, 20, 26, 32, 40, 50, 64, 80], 4)):
+            ask = rng.choice([lambda: a == b, lambda: b == a, lambda: not (a < small), lambda: (a + b).in_unit(units[i]).magnitude == 2, lambda: (b - a).magnitude == 0])
+            how, got = kit.with_little_stack(ask, free)
+            ctx.count(f"asked_with_little_stack/{how}")
+            ctx.count("evaluations")
+            if how == "answered" and got is not True:
+                ctx.violation("C06:wrong-answer-with-little-stack", f"two equal quantities {links} declarations apart, asked with {free} frames to spare: the answer was wrong "
+                              f"(not RecursionError)", {"links": links, "i": i, "j": j, "frames": free})
+            elif how == "raised":
+                ctx.violation(f"C06:raised-with-little-stack:{type(got).__name__}", f"equal quantities asked with {free} frames to spare raised {type(got).__name__}: {got}",
+                              {"links": links, "i": i, "j": j, "frames": free})
+        for label, ask in (("a == b", lambda: a == b), ("b == a", lambda: b == a), ("a >= small", lambda: a >= small), ("small < b", lambda: small < b),
+                           ("a + b", lambda: (a + b).in_unit(units[i]).magnitude == 2), ("b - a", lambda: (b - a).magnitude == 0)):
+            ctx.count("asked_again_with_all_the_stack")
+            try:
+                ok = ask()
+            except Exception as e:
+                ok = e
+            if ok is not True:
+                ctx.violation("C06:answer-after-a-search-that-ran-out-of-stack", f"{label} for equal quantities {j - i} declarations apart gives {ok!r} after the same question "
+                              f"was asked with little stack", {"links": links, "i": i, "j": j, "label": label})
+
+
 def corrected_equivalences(ctx, env):
     """a unit of the user's own whose size is stated, used, and then stated again with a corrected number: from then on
     arithmetic and comparison with it must give one physical answer whatever unit the other operand is written in
@@ -260,6 +304,7 @@ def run(ctx):
                     ctx.sample({"op": opname, "a": str(xa), "b": str(xb), "result": str(res)})
         # equality of re-expressions of one value (tie side: must not be *ordered* inconsistently)
     corrected_equivalences(ctx, env)
+    asked_with_little_stack(ctx, env)
     ctx.require("operations/add", 100)
     ctx.require("operations/mul", 100)
     ctx.require("comparisons_away_from_ties", 100)
